@@ -6,6 +6,7 @@ pub mod report;
 pub mod rng;
 pub mod xlsbw;
 pub mod xlsw;
+pub mod xlsxw;
 
 use std::panic::{catch_unwind, AssertUnwindSafe};
 
